@@ -52,6 +52,19 @@ pub fn admits(n: &Node, r: &RNode, path: &str) -> Result<(), String> {
     Ok(())
 }
 
+fn big_oracle(docs: &[&Node], bytes: &[Vec<u8>]) -> Result<bool, String> {
+    let root = crate::sut::parse_seq(bytes).map_err(|(i, e)| format!("document #{} rejected: {}", i + 1, e))?;
+    for by_name in [false, true] {
+        let src = root.to_serde_struct(&crate::sut::opts_quick(by_name, "D"));
+        let defs = crate::rendered::read_lines(&src).map_err(|e| format!("output unreadable: {}", e))?;
+        let tree = crate::rendered::build_tree(&defs, "@", "$text").map_err(|e| format!("not a tree: {}", e))?;
+        for (i, d) in docs.iter().enumerate() {
+            admits(d, &tree, "").map_err(|e| format!("document #{} is not described by the rendered structs: {}", i + 1, e))?;
+        }
+    }
+    Ok(true)
+}
+
 impl Property for C01 {
     fn id(&self) -> &'static str {
         "C01"
@@ -118,11 +131,25 @@ impl Property for C01 {
                 return Err((Failure::new(format!("small-scope exhaustive search: {}", e)).with_detail(json!({"documents": docs})), json!({"small_scope_documents": docs})));
             }
         }
+        // families beyond the small scope (sizes around plausible limits: windows, inline capacities, two-digit suffixes)
+        {
+            let (n, fail) = super::smallscope::run_big_families(big_oracle);
+            st.evaluations += n;
+            st.nontrivial_enumerated += n;
+            st.add("big_families", n);
+            if let Some((label, e, docs)) = fail {
+                let first = e.lines().next().unwrap_or("").to_string();
+                return Err((Failure::new(format!("family `{}`: {}", label, first)).with_detail(json!({"documents": docs, "message": e})), json!({"big_family": label})));
+            }
+        }
         // the coverage-guided tape campaign lives in C03 (its target runs this property's oracle as well)
         let _ = seed;
         Ok(())
     }
     fn replay_custom(&self, payload: &Value) -> Result<(), Failure> {
+        if let Some(l) = payload["big_family"].as_str() {
+            return super::smallscope::replay_big_family(l, big_oracle).map_err(Failure::new);
+        }
         if payload["small_scope_documents"].is_array() {
             // the C03 replay rebuilds the DOM of canonical documents; admits() is implied by its exact comparison
             return crate::props::c03::C03.replay_custom(payload);
